@@ -211,6 +211,7 @@ EXTRA = [
     ("C12", "revert-negative-target-fix", "pdpy11/compiler.py",
      'new_addr_value = get_as_int(state, "link address", state["insn"], insn.value, bitness=16, unsigned=True)',
      'new_addr_value = get_as_int(state, "link address", state["insn"], insn.value, bitness=16, unsigned=False)'),
+    ("C15", "revert-rad50-nonascii-fix", "pdpy11/metacommands.py", "if len(char.upper()) != 1 or not char.isascii():", "if len(char.upper()) != 1:"),
     ("C02", "revert-include-size-fix", "pdpy11/metacommands.py", "@metacommand\ndef include(state, included_file_path: str):", "@metacommand(size=0)\ndef include(state, included_file_path: str):"),
     ("C12", "revert-included-base-expansion-fix", "pdpy11/deferred.py",
      "                    if isinstance(key1, Promise) and key1.settled:\n", "                    if False:\n"),
